@@ -59,7 +59,7 @@ STREAM_TRUSTED = ["hand-written Lean decoder Model/Rfc.lean (from RFC 9639) and 
 
 PROPS = {
     "C01": {
-        "theorem_modules": ["FlacVerif.Theorems.C01", "FlacVerif.Theorems.C01Strict"],
+        "theorem_modules": ["FlacVerif.Theorems.C01", "FlacVerif.Theorems.C01Strict", "FlacVerif.Theorems.C01Wrap"],
         "streams": {"quick": [("stream", ["--cases", 400, "--max-samples", 6000]), ("kernel", ["--cases", 150])],
                     "thorough": [("stream", ["--cases", 6000, "--max-samples", 40000]), ("kernel", ["--cases", 3000])],
                     "search": [("stream", ["--cases", 1500, "--max-samples", 12000])]},
@@ -93,6 +93,7 @@ PROPS = {
         "trusted_base": STREAM_TRUSTED, "assumptions": [],
     },
     "C09": {
+        "theorem_modules": ["FlacVerif.Theorems.C09", "FlacVerif.Theorems.C09Stream"],
         "streams": {"quick": [("stream", ["--cases", 250, "--max-samples", 6000]), ("stream", ["--cases", 150, "--max-samples", 9000, "--focus", "loud"])],
                     "thorough": [("stream", ["--cases", 4000, "--max-samples", 40000]), ("stream", ["--cases", 3000, "--max-samples", 40000, "--focus", "loud"])],
                     "search": [("stream", ["--cases", 1500, "--max-samples", 9000, "--focus", "loud"])]},
@@ -131,7 +132,7 @@ KERNEL_RULE = ("kernel stream: integer kernels called through the cfg(flacenc_ve
 PROPS.update({
     "C08": {
         "theorem_modules": ["FlacVerif.Theorems.C08", "FlacVerif.Theorems.C12"],
-        "streams": {"quick": [("comp", ["--cases", 120]), ("kernel", ["--cases", 30]), ("stream", ["--cases", 120, "--max-samples", 4000]), ("stream", ["--cases", 3, "--max-samples", 36000, "--focus", "manyframes"])],
+        "streams": {"quick": [("comp", ["--cases", 120]), ("kernel", ["--cases", 30]), ("stream", ["--cases", 120, "--max-samples", 4000]), ("stream", ["--cases", 3, "--max-samples", 36000, "--focus", "manyframes"]), ("stream", ["--cases", 40, "--max-samples", 9000, "--focus", "loud"])],
                     "thorough": [("comp", ["--cases", 3000]), ("kernel", ["--cases", 200]), ("stream", ["--cases", 3000, "--max-samples", 40000])],
                     "search": [("comp", ["--cases", 1500]), ("stream", ["--cases", 800, "--max-samples", 9000])]},
         "profiles": {"quick": ["release", "dev"], "thorough": ["release", "dev"]},
@@ -149,6 +150,7 @@ PROPS.update({
         "assumptions": ["the user sink implements the four required trait methods (provided methods expand as Model/Sink.lean `Op.expand`, proved bit-equivalent in C11_defaults)"],
     },
     "C13": {
+        "theorem_modules": ["FlacVerif.Theorems.C13", "FlacVerif.Theorems.C13Enc"],
         "streams": {"quick": [("kernel", ["--cases", 400]), ("stream", ["--cases", 150, "--max-samples", 6000])],
                     "thorough": [("kernel", ["--cases", 6000]), ("stream", ["--cases", 3000, "--max-samples", 40000]), ("stream", ["--cases", 2000, "--max-samples", 40000, "--focus", "loud"])],
                     "search": [("kernel", ["--cases", 3000])]},
@@ -212,6 +214,7 @@ PROPS.update({
         "assumptions": ["sample rate 0 is accepted by the code and by the model (the property does not list it); the supported widths are 8/12/16/20/24"],
     },
     "C18": {
+        "theorem_modules": ["FlacVerif.Theorems.C18", "FlacVerif.Theorems.C18Parse"],
         "streams": {"quick": [("comp", ["--cases", 150])], "thorough": [("comp", ["--cases", 4000])], "search": [("comp", ["--cases", 1500])]},
         "profiles": {"quick": ["release", "dev"], "thorough": ["release", "dev"]},
         "diff_prefix": ["c18."], "oracle_fields": ["o_c18"], "rule": COMP_RULE,
@@ -251,6 +254,36 @@ def c20_extra(run, tier, bins):
             if m:
                 d[m.group(1)] = (hashlib.md5(b2.group(1).encode()).hexdigest() if b2 else "none", i2.group(1) if i2 else "?", line)
         digests[fs] = d
+    # call histories on one long-lived thread: the same sequence of calls must give the same results in
+    # every build (without `par`, "multi-thread" encodes run on the calling thread and share its scratch
+    # storage with everything that ran before; with `par` they run on fresh worker threads)
+    hist = {}
+    for fs in FEATURE_SETS:
+        b, err = run.build_harness("release", features=fs)
+        if err:
+            continue
+        label = "history@features[" + (fs or "none") + "]"
+        run.run_stream(b, "history", ["--cases", 25 if tier == "quick" else 400], label)
+        rec = os.path.join(os.path.dirname(os.path.dirname(os.path.abspath(__file__))), ".cache", f"{run.pid}-{label}.rec")
+        d = {}
+        for line in open(rec):
+            m = re.search(r"\bid=(\S+)", line)
+            c = re.search(r"\bcalls=(\S+)", line)
+            r2 = re.search(r"\bres=(\S+)", line)
+            if m and c and r2:
+                calls = c.group(1).split(";")
+                res = r2.group(1).split(";")
+                d[m.group(1)] = [(cd, rs) for cd, rs in zip(calls, res) if not cd.startswith("parse:")]
+        hist[fs] = d
+    if FEATURE_SETS[1] in hist:
+        for fs, d in hist.items():
+            for rid, pairs in d.items():
+                ref = hist[FEATURE_SETS[1]].get(rid)
+                if ref is not None and ref != pairs:
+                    bad = next((a for a, b2 in zip(pairs, ref) if a != b2), ("?", "?"))
+                    run.oracle_fails.append(("features[" + (fs or "none") + "]", f"history id={rid} call={bad[0]}",
+                                             f"call {bad[0]} of history {rid} gives different bytes than in the build with features [{FEATURE_SETS[1]}]"))
+                    break
     ref_fs = FEATURE_SETS[1]
     if ref_fs in digests:
         for fs, d in digests.items():
@@ -272,7 +305,7 @@ PROPS.update({
         "theorem_modules": ["FlacVerif.Theorems.C01", "FlacVerif.Theorems.C09"],
         "streams": {"quick": [], "thorough": [], "search": []},
         "extra": c20_extra,
-        "diff_prefix": ["c01.", "c02.", "c03.", "c04.", "c09."], "oracle_fields": ["o_c01", "o_c09"], "class_of": stream_class,
+        "diff_prefix": ["c01.", "c02.", "c03.", "c04.", "c09.", "c10."], "oracle_fields": ["o_c01", "o_c09", "o_c10"], "class_of": stream_class,
         "rule": ("the harness is built four times - no features, default (log, par, serde), default+decode, default+decode+experimental - and each build encodes the same corpus "
                  "(STREAM_RULE generator, same seed, non-experimental configurations, the `multithread` field set explicitly because only its DEFAULT legitimately depends on the par feature); "
                  "every build's output is checked against the one feature-free Lean model (strict RFC decoder, book-keeping, functional replay on the oracle log) and the per-case digests of the "
@@ -314,6 +347,7 @@ CONFIG_RULE = ("config stream: corpus (F2: partitions 0 / 1000, max_order 7; F13
 PROPS.update({
     "C07": {
         "driver": "fvconfig", "uses_gen": ["constants", "config"],
+        "theorem_modules": ["FlacVerif.Theorems.C07", "FlacVerif.Theorems.C07Total"],
         "streams": {"quick": [("config", ["--cases", 150])], "thorough": [("config", ["--cases", 800, "--thorough"])], "search": [("config", ["--cases", 800, "--thorough"])]},
         "profiles": {"quick": ["release", "dev"], "thorough": ["release", "dev"]},
         "diff_prefix": ["c07."], "oracle_fields": ["o_c07"], "rule": CONFIG_RULE,
